@@ -506,6 +506,10 @@ func parseSpecFile(path string) (*SpecFile, error) {
 					} else {
 						cur.Sites[key] = append(cur.Sites[key], cl)
 					}
+				case kw == "loop" && bkw == "complete":
+					// loop <key>: complete[labels] -- the loop has no exit other than running out of elements
+					labels, _ := parseLabels(brest)
+					cur.Loops[key] = append(cur.Loops[key], &Clause{Kind: "complete", Labels: labels, Src: "the loop runs over every element (no break, no return inside)", Expr: &SBool{V: true}, Where: w})
 				case kw == "loop" && bkw == "modifies":
 					for _, m := range strings.Split(brest, ",") {
 						if m = strings.TrimSpace(m); m != "" {
